@@ -1202,9 +1202,9 @@ class Reduce(Funsor):
         )
 
     def _alpha_convert(self, alpha_subs):
-        alpha_subs = {
-            k: to_funsor(v, self.arg.inputs[k]) for k, v in alpha_subs.items()
-        }
+        # self.bound rather than self.arg.inputs: a reduced variable need not
+        # be an input of arg
+        alpha_subs = {k: to_funsor(v, self.bound[k]) for k, v in alpha_subs.items()}
         op, arg, reduced_vars = super()._alpha_convert(alpha_subs)
         reduced_vars = frozenset(alpha_subs.get(var.name, var) for var in reduced_vars)
         return op, arg, reduced_vars
